@@ -116,7 +116,7 @@ def run_unit(ctx: Ctx, qualname: str) -> None:
             d = declared[0]
             ctx.cover(f"{unit}.exit.raises.{d}")
             for cl in fc.raises_clauses.get(d, []):
-                v = interp.spec_eval(cl, env2, old_env, mi)
+                v = interp.spec_eval_p(cl, env2, old_env, mi)
                 ctx.prove(f"{unit}.{cl.name}", interp.as_z3_bool(v), cl.text, pr.where or where_exit, note=f"exceptional postcondition ({ename})", props=_props(cl, fc))
         elif fc.exceptional == "app":
             # application facing: raising into the application is the required behaviour,
@@ -152,7 +152,7 @@ def run_unit(ctx: Ctx, qualname: str) -> None:
         # ghost updates that describe this function's own effect on its object
         interp.run_ghost(fc.ghost_post, env2, Frame(qualname, mi), module=mi)
     for cl in fc.ensures:
-        v = interp.spec_eval(cl, env2, old_env, mi)
+        v = interp.spec_eval_p(cl, env2, old_env, mi)
         ctx.prove(f"{unit}.{cl.name}", interp.as_z3_bool(v), cl.text, where_exit, note="postcondition", props=_props(cl, fc))
     finish_unit(interp, fc, env2, old_env, exceptional=False)
 
@@ -167,14 +167,14 @@ def finish_unit(interp: Interp, fc: FnContract, env, old_env, exceptional: bool)
     if us is not None:
         cc = interp.class_contract(us)
         for cl in cc.inv:
-            v = interp.spec_eval(cl, {"self": us}, None)
+            v = interp.spec_eval_p(cl, {"self": us}, None)
             ctx.prove(f"{unit}.exit.{cl.name}", interp.as_z3_bool(v), cl.text, where_exit, note="class invariant at exit", props=tuple(cl.props) or fc.props)
         if not interp.in_init and getattr(interp, "segment_start", None) is not None:
             interp.check_guarantee(where_exit, "exit")
         interp.prove_published(where_exit)
         if fc.task and not interp.in_init:
             for cl in cc.task_inv.get(fc.task, []):
-                v = interp.spec_eval(cl, {"self": us}, None)
+                v = interp.spec_eval_p(cl, {"self": us}, None)
                 ctx.prove(f"{unit}.exit.{cl.name}", interp.as_z3_bool(v), cl.text, where_exit, note=f"quiescent invariant of task {fc.task} at exit", props=tuple(cl.props) or fc.props)
     n_y = getattr(interp, "n_yields", 0)
     if fc.effect == "atomic":
